@@ -105,6 +105,9 @@ func c08Conds(ref *rm.Schema, level int) []rm.Cond {
 			addArg(rm.MapOf(rm.S("k1"), rm.S("nope")))
 			addArg(rm.MapOf(rm.S("k2"), rm.S("w")))
 			addArg(rm.MapOf(rm.S("k1"), rm.S("u"), rm.S("k9"), rm.S("z")))
+			// the zero value of the value type under an indexed key: a row lacking the key must not be taken for one holding it
+			addArg(rm.MapOf(rm.S("k1"), rm.S("")))
+			addArg(rm.MapOf(rm.S("k2"), rm.S("")))
 		case c.Scalar():
 			switch c.KeyT {
 			case "integer":
